@@ -415,6 +415,13 @@ func (b *B) bin(op Op, x, y *Term) *Term {
 		if y.IsConst() && x.Op == OpAdd && x.Args[1].IsConst() {
 			return b.bin(OpAdd, x.Args[0], b.Const(x.Args[1].Val+y.Val, w))
 		}
+		// (a + k1) + c  /  a + (c + k2): float the constant outwards
+		if !y.IsConst() && x.Op == OpAdd && x.Args[1].IsConst() {
+			return b.bin(OpAdd, b.bin(OpAdd, x.Args[0], y), x.Args[1])
+		}
+		if !x.IsConst() && y.Op == OpAdd && y.Args[1].IsConst() {
+			return b.bin(OpAdd, b.bin(OpAdd, x, y.Args[0]), y.Args[1])
+		}
 	case OpSub:
 		if y.IsConst() && y.Val == 0 {
 			return x
@@ -428,6 +435,18 @@ func (b *B) bin(op Op, x, y *Term) *Term {
 		// (a + k) - a = k
 		if x.Op == OpAdd && x.Args[0] == y {
 			return x.Args[1]
+		}
+		// a - (a + k) = -k
+		if y.Op == OpAdd && y.Args[0] == x {
+			return b.Neg(y.Args[1])
+		}
+		// (a + k1) - (a + k2) = k1 - k2
+		if x.Op == OpAdd && y.Op == OpAdd && x.Args[0] == y.Args[0] {
+			return b.bin(OpSub, x.Args[1], y.Args[1])
+		}
+		// (a + k) - b  with constant k: (a - b) + k  (exposes a-b cancellations)
+		if x.Op == OpAdd && x.Args[1].IsConst() && y.Op == OpAdd && y.Args[1].IsConst() {
+			return b.bin(OpAdd, b.bin(OpSub, x.Args[0], y.Args[0]), b.Const(x.Args[1].Val-y.Args[1].Val, w))
 		}
 	case OpMul:
 		if x.IsConst() {
@@ -473,6 +492,9 @@ func (b *B) bin(op Op, x, y *Term) *Term {
 			if y.Val == mask(w) {
 				return y
 			}
+		}
+		if r := b.orPieces(x, y); r != nil && r.W == w {
+			return r
 		}
 	case OpBXor:
 		if x == y {
@@ -627,15 +649,23 @@ func (b *B) Extract(x *Term, hi, lo int) *Term {
 			return b.Extract(x.Args[0], hi-lw, lo-lw)
 		}
 	}
-	// truncation distributes over +,-,*,&,|,^,<<(const)
+	// byte(x >> k): a slice of x
+	if x.Op == OpLShr && x.Args[1].IsConst() && hi+int(x.Args[1].Val) < x.W {
+		k := int(x.Args[1].Val)
+		return b.Extract(x.Args[0], hi+k, lo+k)
+	}
+	if x.Op == OpShl && x.Args[1].IsConst() && lo >= int(x.Args[1].Val) && x.Args[1].Val < uint64(x.W) {
+		k := int(x.Args[1].Val)
+		return b.Extract(x.Args[0], hi-k, lo-k)
+	}
+	// truncation distributes over bitwise operators and ite (not over +,-,*: keeping the wide
+	// arithmetic term lets byte-wise re-assembly fold back to it)
 	if lo == 0 {
 		switch x.Op {
-		case OpAdd, OpSub, OpMul, OpBAnd, OpBOr, OpBXor:
+		case OpBAnd, OpBOr, OpBXor:
 			return b.bin(x.Op, b.Extract(x.Args[0], hi, 0), b.Extract(x.Args[1], hi, 0))
 		case OpBNot:
 			return b.BNot(b.Extract(x.Args[0], hi, 0))
-		case OpNeg:
-			return b.Neg(b.Extract(x.Args[0], hi, 0))
 		case OpIte:
 			return b.Ite(x.Args[0], b.Extract(x.Args[1], hi, 0), b.Extract(x.Args[2], hi, 0))
 		}
